@@ -3,7 +3,6 @@ using SP_c2_i = SplineTrajectory::CubicSplineND<2>;
 using TM_c2_i = SplineTrajectory::IdentityTimeMap;
 using SM_c2_i = SplineTrajectory::IdentitySpatialMap<2>;
 OPT_REGISTER_ONE(C12, P_C12, c2_i, SP_c2_i, TM_c2_i, SM_c2_i, false, 1)
-#ifndef STSIM_TSAN
 OPT_REGISTER_ONE(C07, P_C07, c2_i, SP_c2_i, TM_c2_i, SM_c2_i, false, 1)
 OPT_REGISTER_ONE(C08, P_C08, c2_i, SP_c2_i, TM_c2_i, SM_c2_i, false, 1)
 OPT_REGISTER_ONE(C09, P_C09, c2_i, SP_c2_i, TM_c2_i, SM_c2_i, false, 1)
@@ -11,4 +10,3 @@ OPT_REGISTER_ONE(C10, P_C10, c2_i, SP_c2_i, TM_c2_i, SM_c2_i, false, 1)
 OPT_REGISTER_ONE(C15, P_C15, c2_i, SP_c2_i, TM_c2_i, SM_c2_i, false, 1)
 OPT_REGISTER_ONE(C16, P_C16, c2_i, SP_c2_i, TM_c2_i, SM_c2_i, false, 1)
 OPT_REGISTER_ONE(C19, P_C19, c2_i, SP_c2_i, TM_c2_i, SM_c2_i, false, 1)
-#endif
